@@ -531,9 +531,22 @@ class UrwidImageScreen(urwid.raw_display.Screen):
               Otherwise, they're cleared when next the output buffer is flushed,
               such as at the next screen redraw.
         """
+        if self._ti_delete_images(widgets, now):
+            # The disguise states of the canvas and of a widget are cyclic, hence changes
+            # made by clearing more than once between two redraws may cancel out
+            # (e.g +2 and +1). ``urwid`` would then take the lines of a cleared image
+            # for unchanged and not redraw them.
+            super().clear()
+
+    def _ti_delete_images(self, widgets: Tuple[UrwidImage, ...], now: bool) -> bool:
+        """Deletes on-screen images; see :py:meth:`clear_images`.
+
+        Returns:
+            ``True`` if any delete command was issued. Otherwise, ``False``.
+        """
         # Also takes care of iterm2 images on Konsole
         if not (KittyImage.forced_support or KittyImage.is_supported()):
-            return
+            return False
 
         if widgets:
             # Better to send the delete commands in a batch than individually
@@ -561,12 +574,16 @@ class UrwidImageScreen(urwid.raw_display.Screen):
                             for widget in kitty_widgets
                         )
                     )
+
+            return bool(kitty_widgets)
         else:
             if now:
                 write_tty(ctlseqs.KITTY_DELETE_ALL_b)
             else:
                 self.write(ctlseqs.KITTY_DELETE_ALL)
             UrwidImageCanvas._ti_change_disguise()
+
+            return True
 
     # `@lock_tty` prevents queries during a synced update.
     # Otherwise, responses would be delayed until the synced update ends and that might
@@ -687,12 +704,12 @@ class UrwidImageScreen(urwid.raw_display.Screen):
                 if widget not in kitty_widgets:
                     kitty_widgets.append(widget)
             else:
-                self.clear_images()
+                self._ti_delete_images((), False)
                 # Multiple `clear_images()`s messes up the canvas disguise
                 # A single `clear_images()` takes care of all images anyways
                 break
         else:
             if kitty_widgets:
-                self.clear_images(*kitty_widgets)
+                self._ti_delete_images(tuple(kitty_widgets), False)
 
         self._ti_image_cviews = frozenset(image_cviews)
